@@ -165,12 +165,27 @@ def build_values(case):
     from elementpath import XPathContext
     from elementpath import datatypes as dt
     texts = [it[1] for key in ('l', 'r') if key in case for it in case[key] if it[0] == 'n']
-    root = ET.Element('r')
-    for tx in texts:
-        e = ET.SubElement(root, 'a')
-        e.text = tx
+    # the document: ElementTree element / ElementTree document / lxml element / lxml document (by content)
+    rv = (sum(len(t) for t in texts) + len(texts)) % 4 if texts else 0
+    if rv >= 2:
+        import lxml.etree as ET2
+        root = ET2.Element('r')
+        for tx in texts:
+            e = ET2.SubElement(root, 'a')
+            e.text = tx
+        if rv == 3:
+            root = ET2.ElementTree(root)
+    else:
+        root = ET.Element('r')
+        for tx in texts:
+            e = ET.SubElement(root, 'a')
+            e.text = tx
+        if rv == 1:
+            root = ET.ElementTree(root)
     ctx0 = XPathContext(root=root)
-    nodes = list(ctx0.root.children)
+    top = ctx0.root if getattr(ctx0.root, 'name', None) == 'r' else \
+        [c for c in ctx0.root.children if getattr(c, 'name', None) == 'r'][0]
+    nodes = list(top.children)
     ordered = case['m'] == 'v31'
     k = [0]
 
@@ -254,6 +269,44 @@ def make_context(root, variables, z):
     return XPathContext(root=root, variables=variables, timezone=Timezone(pydt.timedelta(minutes=z)))
 
 
+_selectors: dict = {}
+PARSER_KW = {'v1': ('XPath1Parser', {}), 'v2c': ('XPath2Parser', {'compatibility_mode': True}),
+             'v2': ('XPath2Parser', {}), 'v31': ('XPath31Parser', {})}
+
+
+def parser_class(mode):
+    import elementpath
+    from elementpath.xpath31 import XPath31Parser
+    name, kw = PARSER_KW[mode]
+    return {'XPath1Parser': elementpath.XPath1Parser, 'XPath2Parser': elementpath.XPath2Parser,
+            'XPath31Parser': XPath31Parser}[name], kw
+
+
+def evaluate_paths(mode, expr, root, variables, z, variant):
+    """the public evaluation paths: 0 token.evaluate, 1 token.select, 2 elementpath.select() (new parser),
+    3 a cached Selector (same call site, different roots / variable maps / contexts), 4 Selector.iter_select"""
+    import elementpath
+    from elementpath.datatypes import Timezone
+    tz = None if z is None else Timezone(pydt.timedelta(minutes=z))
+    if variant == 0:
+        return get_token(mode, expr).evaluate(make_context(root, variables, z))
+    if variant == 1:
+        return list(get_token(mode, expr).select(make_context(root, variables, z)))
+    cls, kw = parser_class(mode)
+    if variant == 2:
+        return elementpath.select(root, expr, parser=cls, variables=variables, timezone=tz, **kw)
+    sel = _selectors.get((mode, expr))
+    if sel is None:
+        sel = _selectors[(mode, expr)] = elementpath.Selector(expr, parser=cls, **kw)
+    if variant == 3:
+        return sel.select(root, variables=variables, timezone=tz)
+    return list(sel.iter_select(root, variables=variables, timezone=tz))
+
+
+def variant_of(line: str) -> int:
+    return sum(line.encode()) % 5
+
+
 def canon_exc(e) -> str:
     from elementpath import ElementPathError
     if isinstance(e, ElementPathError):
@@ -291,9 +344,8 @@ def run_history(hist):
     for st in hist['steps']:
         case = {'k': st['k'], 'm': st['m'], 'op': st['op']}
         try:
-            tok = get_token(st['m'], expr_of(case))
-            ctx = make_context(root, {'a': objs[st['x']], 'b': objs[st['y']]}, st.get('z'))
-            out = canon_result(tok.evaluate(ctx))
+            out = canon_result(evaluate_paths(st['m'], expr_of(case), root, {'a': objs[st['x']], 'b': objs[st['y']]},
+                                              st.get('z'), (len(res) + len(flat) + (st.get('z') or 0)) % 5))
         except RecursionError:
             out = 'ERR:OTHER:RecursionError'
         except Exception as e:  # noqa
@@ -320,8 +372,8 @@ def run_impl(case) -> str:
         # a singleton operand is bound as a scalar or as a one-item list (deterministically by its content)
         variables = {k: (v[0] if len(v) == 1 and (len(repr(v[0])) + len(case['m'])) % 2 == 0 else v)
                      for k, v in variables.items()}
-        ctx = make_context(root, variables, case.get('z'))
-        return canon_result(tok.evaluate(ctx))
+        return canon_result(evaluate_paths(case['m'], expr_of(case), root, variables, case.get('z'),
+                                           variant_of(line_of(case))))
     except ElementPathError as e:
         code = (getattr(e, 'code', None) or '?').split(':')[-1]
         return 'ERR:' + code
@@ -340,9 +392,9 @@ POOLS = {
           0.1, 2.0 ** 53, 5e-324, 1e300, -1.0, 1.00000005, 3.0, 10.0, 9.0, 16777216.0, 1e-320, -1.00000001, 1e308,
           -1e308, 0.30000000000000004, 0.3],
     'g': [float('nan'), float('inf'), float('-inf'), 0.0, -0.0, 1.0, 1.5, 2.0, f32(1.0000001), f32(1.0000002),
-          f32(0.1), 16777216.0, -1.0, 3.0, 10.0, 9.0, f32(1.00000012), f32(1.00000024), f32(1e30), f32(1.00000036), 2 - 2 ** -23, 2 - 2 ** -22, 2 - 3 * 2 ** -23],
+          f32(0.1), 16777216.0, -1.0, 3.0, 10.0, 9.0, f32(3.4e38), f32(1.00000012), f32(1.00000024), f32(1e30), f32(1.00000036), 2 - 2 ** -23, 2 - 2 ** -22, 2 - 3 * 2 ** -23],
     's': ['', 'a', 'abc', 'abd', 'ab', 'B', '1', '1.0', '10', '9', 'true', 'false', 'NaN', 'INF', '-INF', ' 1 ', '-0',
-          '\U00010000', '￿', 'é', '1.5', '0', '-1', '+1', 'x', '1.00000001', '2', '3', 'ba', '12', 'abca'],
+          '\U00010000', '￿', 'é', '1.5', '0', '-1', '+1', 'x', '1.00000001', '2', '3', 'ba', '12', 'abca', '4' + '0' * 38, '0.' + '0' * 40 + '1'],
     'a': ['', 'a', 'abc', 'abd', 'ab', 'B', '1', 'x', 'é', '10', '9'],
     'b': [True, False],
     'q': [('', '', 'a'), ('urn-x', 'p', 'a'), ('urn-y', 'p', 'a'), ('urn-x', 'q', 'a'), ('urn-x', 'p', 'b'),
@@ -414,6 +466,26 @@ def boundary_item(rng, t, year=None):
     hms = rng.choice([(0, 0, 0), (1, 0, 0), (4, 0, 0), (10, 0, 0), (13, 59, 59), (14, 0, 1), (20, 0, 0), (23, 0, 0),
                       (23, 59, 59)])
     return ('T', (y, *md, *hms), tz)
+
+
+def numeric_twin(rng, it):
+    """the same (or the nearest) number in another numeric type, or as an untyped string"""
+    t = it[0]
+    try:
+        if t == 'i':
+            v = it[1] + rng.choice([0, 0, 1, -1])
+            return rng.choice([('f', float(v)), ('g', f32(float(v))), ('d', str(v)), ('u', str(v)), ('i', v)])
+        if t in 'fg' and math.isfinite(it[1]):
+            fr = Fraction(it[1])
+            if fr.denominator == 1 and abs(fr) < 10 ** 40:
+                return rng.choice([('i', int(fr) + rng.choice([0, 0, 1, -1])), ('u', str(int(fr))), ('d', str(int(fr)))])
+            if abs(fr) < 10 ** 6 and fr.denominator < 2 ** 40:
+                return ('d', format(Decimal(fr.numerator) / Decimal(fr.denominator), 'f'))
+        if t == 'd':
+            return rng.choice([('f', float(Decimal(it[1]))), ('g', f32(float(Decimal(it[1])))), ('u', it[1])])
+    except (OverflowError, ValueError, ArithmeticError):
+        pass
+    return it
 
 
 def neighbour(rng, it):
@@ -491,6 +563,13 @@ def corpus():
         c.append({'k': 'V', 'm': 'v2', 'op': op, 'l': [('i', 16777217)], 'r': [('g', 16777216.0)]})
         c.append({'k': 'G', 'm': 'v2', 'op': op, 'l': [('i', 2 ** 53 + 1)], 'r': [('f', 2.0 ** 53)]})
         c.append({'k': 'V', 'm': 'v2', 'op': op, 'l': [('g', 2 - 2 ** -22)], 'r': [('g', 2 - 2 ** -23)]})
+        c.append({'k': 'G', 'm': 'v31', 'op': op, 'l': [('f', 2.0 ** 53)], 'r': [('i', 2 ** 53 + 1)]})
+        c.append({'k': 'G', 'm': 'v2', 'op': op, 'l': [('g', 16777216.0)], 'r': [('i', 2 ** 53 + 1)]})
+        c.append({'k': 'G', 'm': 'v2', 'op': op, 'l': [('u', '4' + '0' * 38)], 'r': [('g', float('inf'))]})
+        c.append({'k': 'G', 'm': 'v31', 'op': op, 'l': [('g', 0.0)], 'r': [('u', '0.' + '0' * 40 + '1')]})
+        c.append({'k': 'G', 'm': 'v2', 'op': op, 'l': [('u', '9007199254740992')], 'r': [('i', 2 ** 53 + 1)]})
+        c.append({'k': 'G', 'm': 'v2', 'op': op, 'l': [('P', 12, 0)], 'r': [('P', 13, 0)]})
+        c.append({'k': 'G', 'm': 'v2', 'op': op, 'l': [('P', 12, 0)], 'r': [('Y', 12)]})
         c.append({'k': 'G', 'm': 'v31', 'op': op, 'l': [('g', 2 - 2 ** -22)], 'r': [('g', 2 - 2 ** -23)]})
         c.append({'k': 'G', 'm': 'v2', 'op': op, 'l': [('D', (2000, 1, 1))], 'r': [('i', 1)]})
         c.append({'k': 'G', 'm': 'v2', 'op': op, 'l': [('b', True)], 'r': [('f', 1.0)]})
@@ -535,7 +614,10 @@ def gen_cases(run: Run):
         m = rng.choice(MODES)
         k = rng.choice(['G', 'V']) if m != 'v1' else 'G'
         a = rand_item(rng, rng.choice(grp))
-        b = neighbour(rng, a) if rng.random() < 0.4 else rand_item(rng, rng.choice(grp))
+        r0 = rng.random()
+        b = neighbour(rng, a) if r0 < 0.35 else numeric_twin(rng, a) if r0 < 0.55 else rand_item(rng, rng.choice(grp))
+        if rng.random() < 0.5:
+            a, b = b, a
         cases.append({'k': k, 'm': m, 'op': rng.choice(OPS), 'l': [a], 'r': [b]})
     # (2b) pairs of doubles / floats at relative distances around the isclose tolerance (1e-7)
     for _ in range(run.scale(2500, 30000)):
@@ -768,6 +850,7 @@ def compare(run: Run, cases: list, count=True) -> None:
             nontrivial = bool(case['l']) and bool(case.get('r', [1]))
             st.case(case_json(case), nontrivial=nontrivial)
             st.count(f'kind:{k}')
+            st.count(f'path:{variant_of(line)}')
             st.count(f'mode:{case["m"]}')
             st.count(f'outcome:{impl if not impl.startswith("?") else "?"}')
             if k in 'GV':
